@@ -96,6 +96,7 @@ fn main() {
     let mut rng = Rng::new(a.seed);
     let mut run = Run::new(&a.out);
     quiet_panics();
+    ambient::install();
     let n_hist: usize = if a.thorough() { 600_000 } else { 80_000 };
     let deals = make_deals(&mut rng, 96);
     run.rule = format!(
@@ -123,7 +124,44 @@ fn main() {
         let folded = [seats[0].0 == State::Folding, seats[1].0 == State::Folding];
         let op = format!("rewards {} {} | {} | {} {}", deal.h0, deal.h1, hist_tok(&hist), rk.0, rk.1);
         let g = *last;
-        match catch(move || g.settlements().iter().map(|s| (s.reward as i32, s.pnl() as i32)).collect::<Vec<_>>()) {
+        let settle = move || catch(move || g.settlements().iter().map(|s| (s.reward as i32, s.pnl() as i32)).collect::<Vec<_>>());
+        let show = |v: &Option<Vec<(i32, i32)>>| match v { None => "panic".to_string(), Some(v) => format!("{} {} {} {}", v[0].0, v[1].0, v[0].1, v[1].1) };
+        let plain = settle();
+        // the same question under other ambient conditions: TRACE logging on, after unrelated
+        // calls, from a fresh thread (with logging on). The answers must not depend on them.
+        let traced = ambient::with_trace(settle);
+        let _ = (g.legal(), g.deck(), g.turn(), states[0].is_allowed(&Action::Fold));
+        let again = settle();
+        run.spec_checked += 2;
+        run.line(&op, &show(&traced)); // the model line is the same either way
+        if traced != plain {
+            run.fail("payout-depends-on-logging", &op, &format!("{} (logging off)", show(&plain)), &format!("{} (TRACE logging on)", show(&traced)));
+        }
+        if again != plain {
+            run.fail("payout-depends-on-history-of-calls", &op, &show(&plain), &show(&again));
+        }
+        if h % 8 == 0 {
+            let threaded = ambient::in_thread(move || ambient::with_trace(settle)).flatten();
+            run.spec_checked += 1;
+            if threaded != plain {
+                run.fail("payout-depends-on-thread", &op, &show(&plain), &show(&threaded));
+            }
+            // the whole line of play again with TRACE logging on: same states
+            let hist2 = hist.clone();
+            let (h0, h1) = (deal.h0, deal.h1);
+            let replay = ambient::with_trace(|| catch(move || {
+                let mut g = root_with(h0, h1);
+                let mut v = vec![state_line(&g)];
+                for a in hist2 { g = g.apply(a); v.push(state_line(&g)); }
+                v.join(" ; ")
+            }));
+            run.spec_checked += 1;
+            if replay.as_deref() != Some(line.as_str()) {
+                run.fail("state-depends-on-logging", &op_end, &line, &replay.unwrap_or("panic".into()));
+            }
+            run.count("ambient:thread+traced-replay");
+        }
+        match plain {
             None => {
                 run.line(&op, "panic");
                 run.fail("settlements-panic", &op, "rewards", "panic");
